@@ -93,6 +93,12 @@ func (s *FrameSet) handleMatch(match []string) error {
 			return fmt.Errorf("%q is not one of the valid modifier 'xy:'", mod)
 		}
 
+		// The sign of the chunk carries no meaning: the direction
+		// always follows the range itself (start -> end)
+		if mod != `x` && chunk < 0 {
+			chunk = -chunk
+		}
+
 		switch mod {
 		case `x`:
 			s.rangePtr.AppendUnique(start, end, chunk)
@@ -102,12 +108,16 @@ func (s *FrameSet) handleMatch(match []string) error {
 			// This approach will add excessive amounts of singe
 			// range elements. They could be compressed into chunks
 			skip := start
-			aRange := ranges.NewInclusiveRange(start, end, 1)
+			inc := 1
+			if start > end {
+				inc = -1
+			}
+			aRange := ranges.NewInclusiveRange(start, end, inc)
 			var val int
 			for it := aRange.IterValues(); !it.IsDone(); {
 				val = it.Next()
 				if val == skip {
-					skip += chunk
+					skip += chunk * inc
 					continue
 				}
 				s.rangePtr.AppendUnique(val, val, 1)
